@@ -395,15 +395,15 @@ type site struct {
 }
 
 type walker struct {
-	sites        []site
-	dispatches   int
-	uncovered    []string
-	outArgs      []string // identifiers named out* passed to cli functions
-	conds        []string
-	stack        []string
-	retAcc       []*uint8
-	loopAcc      []*uint8
-	unsupported  []string
+	sites       []site
+	dispatches  int
+	uncovered   []string
+	outArgs     []string // identifiers named out* passed to cli functions
+	conds       []string
+	stack       []string
+	retAcc      []*uint8
+	loopAcc     []*uint8
+	unsupported []string
 }
 
 func (w *walker) dispatch(n ast.Node, st uint8) {
